@@ -346,6 +346,21 @@ macro "jnoval_struct" : tactic =>
 theorem jbind_ret {β : Type} (m : JM β) : (m >>= fun t => Except.ok t) = m := by cases m <;> rfl
 theorem bind_ret {β : Type} (m : M β) : (m >>= fun t => Except.ok t) = m := by cases m <;> rfl
 
+theorem ite_bindJ {β γ : Type} (c : Prop) [Decidable c] (a b : JM β) (f : β → JM γ) :
+    ((if c then a else b) >>= f) = if c then a >>= f else b >>= f := by split_ifs <;> rfl
+theorem ite_bindC {β γ : Type} (c : Prop) [Decidable c] (a b : M β) (f : β → M γ) :
+    ((if c then a else b) >>= f) = if c then a >>= f else b >>= f := by split_ifs <;> rfl
+
+/-- `if (a && b) hit; else rest` as the C translation renders the short-circuit (`rest` duplicated) -/
+theorem ite_and_decide {β : Type} (a b : Prop) [Decidable a] [Decidable b] (x y : β) :
+    (if a then (if decide b = true then x else y) else y) = if a ∧ b then x else y := by
+  by_cases ha : a <;> by_cases hb : b <;> simp [ha, hb]
+
+/-- the C translation of `a && b` with an effectful right operand, once the operand has been evaluated -/
+theorem c_short_and {β : Type} (a b : Prop) [Decidable a] [Decidable b] (f : Bool → M β) :
+    ((if a then (Except.ok (decide b) : M Bool) else Except.ok false) >>= f) = f (decide (a ∧ b)) := by
+  by_cases ha : a <;> by_cases hb : b <;> simp [ha, hb]
+
 /-! ## loops: related bodies give related loops (no unrolling) -/
 
 /-- one state-transforming step on both sides: the same new state, or both models stop, or the C side has undefined behaviour -/
